@@ -239,12 +239,18 @@ def run(ctx):
                     dist["faults_in_write_phase"] += 1
                 if failed and f.getvalue() != cur:
                     wrote = sum(1 for t in ff.trace[:-1] if t == "write")
-                    if trace[k] == "truncate":
+                    single_write_phase = all(t in ("write", "truncate") for t in trace[first_mut:])
+                    if trace[k] == "truncate" and k == len(trace) - 1 and single_write_phase:
                         what = "an I/O error at the final truncate (after the copy completed) leaves the file modified"
-                    elif wrote >= 1:
+                    elif trace[k] == "write" and wrote >= 1 and single_write_phase:
                         what = "an I/O error at a later write of the copy (write number %d, after %d completed) leaves the file modified" % (wrote + 1, wrote)
-                    else:
+                    elif wrote == 0 and k <= first_mut:
                         what = "an I/O error at operation %d (%s), before anything was written, leaves the file modified" % (k, trace[k])
+                    else:
+                        # the call went on reading / seeking after it had started to write: a failure there is not one of the two
+                        # recorded findings (which are faults INSIDE the one final copy)
+                        what = ("an I/O error at operation %d (%s), after %d write(s) had already modified the file, makes the call fail with the file "
+                                "changed: the call does not do all its reading before its one write phase" % (k, trace[k], wrote))
                     ctx.violation("oracle", what, {"api": "mammoth.embed_style_map", "fault_operation": k, "operation": trace[k],
                                                    "completed_writes": wrote, "trace": trace, "file_length": len(cur),
                                                    "package": gen_xml.pkg_json(pkg)}, True)
